@@ -14,7 +14,7 @@ CLAIMED = {
          "legal moves of spec/Rules.v: castling, en passant, the four promotions, pins, check evasions), C01_nodup, C01_mate_stalemate, for every "
          "board satisfying the computable well-formedness wf_rules (proved preserved by every legal move: C03_wf_step; evaluated on every visited "
          "position). Rules.v is coordinate-only; props/RulesPerft.v checks it (through the independent FEN reader) against the published perft totals of the six standard test positions. Tie: engine vs model vs Rules.v at every node of walks / probes / corpus: legal "
-         "move sets with flags, check status of both colours, attacked squares.",
+         "move sets with flags, check status of both colours, attacked squares. Engine-only legs: query independence (every question about Y on a fresh thread vs right after a question about X, for key-collision / near-collision pairs in both orders and random pairs).",
          TB + "Rules.v is the statement of the rules of chess (trusted, short, perft-validated); counters below 65535.",
          "Coq proof (refinement of the bitboard move generator to a mailbox rules specification) + walk correspondence"),
  "C03": ("Theorems C03_step (abs (make_move b m) = Rules.apply (abs b) (move_of m): placement, side, four rights, en-passant file, both counters), "
@@ -26,7 +26,7 @@ CLAIMED = {
  "C02": ("Theorems C02_unmake_make (unmake_move (make_move b m) = Some b for the WHOLE record incl. the record of earlier positions "
          "with multiplicity), C02_wf_preserved, C02_nested (any nesting depth/width), C02_query_pure, for every well-formed board and "
          "every move satisfying the computable precondition move_okb; hypotheses evaluated on every visited position/move. Tie: engine "
-         "vs model node by node on walks/probes, every legal move made+unmade and compared with the snapshot.",
+         "vs model node by node on walks/probes, every legal move made+unmade and compared with the snapshot. Engine-only leg: 1100-ply (2800 in thorough) shuffle games in which a position recurs hundreds of times, Board == snapshot after every make/unmake and query.",
          TB + "wfb/move_okb are hypotheses of C02_unmake_make; props/C02closed.v discharges them for generated moves from wf_rules (C01_moves_ok). props/C02search.v: the search run IN PLACE on one board "
          "(model/SearchMut.v: make / recurse / unmake, legality probe included) returns exactly the result of the persistent-position search model and hands the board back (an interrupted root iteration leaves it one move deep: proved and witnessed).",
          "Coq proof (record-level inverse of make/unmake) + walk correspondence"),
@@ -61,12 +61,12 @@ CLAIMED = {
          "is accepted exactly when it is the notation of a legal move), C08_notation_inj, C08_tokens_* (slicing), over the model of "
          "parse_position / load_position / the command loop; E2E_position_then_go (props/EndToEnd.v): from the TEXT of `position startpos moves ...` to the rules "
          "of chess (C08+C03+C01+C11/C17 invariant+C09 composed: the board abstracts to the rules position after those moves, and any following go answers with one "
-         "bestmove legal in the rules position). Tie: sessions over the pipe with the guarded verifdump command, full state vs model.",
+         "bestmove legal in the rules position). Tie: sessions over the pipe with the guarded verifdump command, full state vs model. Sessions include refused extensions followed by the right extension, the same placement given with other counters, and every prefix of a session as a session of its own.",
          TB + "the search thread is abstracted in the sequential session model (protocol: C10).", "Coq proof over the UCI model + session correspondence over the pipe"),
  "C09": ("Theorem C09_answer: for every game, position with a legal move, limit combination, clock oracle and stop oracle the search output is "
          "info lines followed by exactly one bestmove naming a legal move; C09_flag_cleared. Tie: in-process answers for every node budget and for stop / "
          "clock / movetime interruptions at oracle-indexed points vs model; limit grid over the pipe (one legal bestmove per go, readyok after). PARTIAL: wall-clock latency is measured (runtime "
-         "evidence, 3-of-3 rule), not proved.",
+         "evidence, 3-of-3 rule), not proved. Further legs on the real binary: a go after every advertised option at its extremes; backward analysis in one cache (successors searched before their predecessor).",
          TB + "clock/stop are oracles; latency in milliseconds is outside the theorem.", "Coq proof over the search model with arbitrary abort oracles + correspondence + pipe grid"),
  "C10": ("Invariants over ALL reachable states of the input-thread x search-threads transition system (any command list, any schedule): one "
          "bestmove per accepted go, go never silent, refused only while searching and unstopped, stop clears and flags never re-arm, a stopped "
@@ -107,21 +107,21 @@ CLAIMED = {
          "from an unfinished subtree and nothing is written after the cut), C13_cut_cache_is_a_full_run_cache, C13_budget (every write below the budget "
          "with the flag set), C13_over_budget_is_inert. Tie: complete cache-write traces engine vs model for every node budget 1..size of the full "
          "search, and for stop / game-clock / movetime interruptions forced at the K-th leaf with the oracle index (which flag load, which clock "
-         "reading) reported by guarded counters and fed to the model; prefix property also checked on the engine alone.",
+         "reading) reported by guarded counters and fed to the model; prefix property also checked on the engine alone. The driver also compares the REAL cache content with what the observed writes say after every search; asymmetric game clocks and deep (iteration 6-8) node-budget cuts judged by the prefix property.",
          TB, "Coq proof (lockstep simulation of cut vs full run; trace invariant) + write-trace correspondence over all budgets and oracle cut points"),
  "C14": ("Theorems C14_depths_in_order (any limits/oracles: depths 1..k then the single bestmove), C14_pv_checked, C14_depth_only (depth N alone "
          "reports every depth 1..N). Tie: structured output trace engine vs model; real info lines matched against the UCI grammar and PVs "
-         "replayed on the model. PARTIAL: character-level syntax is validated on real output, not proved.",
+         "replayed on the model. PARTIAL: character-level syntax is validated on real output, not proved. Long runs (go depth 255 on tiny positions and bare kings, depth 10-12 on pawn endings) have every depth required and every PV replayed through the engine's legal-move generator; lines are judged by a general UCI grammar, the exact text only as a correspondence.",
          TB, "Coq proof over the output trace + correspondence + grammar validation of real lines"),
  "C15": ("Theorems C15_parse_total (no slice/index/unwrap of the parser can fail, any token list), C15_step_total, C15_loop_ends (ends at quit or "
          "end of input: never crashes, never spins), C15_ready_answered. Tie: every token sequence of length <=2 (and 3 after a parsing command) "
          "over a 33-word vocabulary + grammar stream, engine parser vs model; pipe sessions ended by quit / closed stdin. PARTIAL: time-to-exit "
-         "measured; non-ASCII input outside the model.",
+         "measured; non-ASCII input outside the model. Lines are also sent as BYTES (invalid UTF-8, long multi-byte tokens at every alignment): this leg exposed and now guards the repaired defect D12.",
          TB + "FEN arguments assumed valid (as the property states).", "Coq proof (panics as values, totality) + bounded-exhaustive parser correspondence"),
  "C16": ("Theorem C16_clock_free: without time limits the whole search is independent of every clock reading, i.e. a function of (position, "
          "depth bound, node budget, initial cache). Tie (the content): a guarded clock-skew hook makes the clock jump by 10^10 ms in mid-search with no time limit set: nothing may change; EXACT equality of best move, score, node count, seldepth, info lines and "
          "complete cache-write trace with the model; repeated runs in-process / cross-process / under load. PARTIAL: scheduler and hash-seed "
-         "effects are runtime evidence.",
+         "effects are runtime evidence. Engine-only legs: a 12-million-node search in two concurrent processes; bench twice; a process frozen with SIGSTOP for 125 s (305 s) in mid-search must print identical lines; a clock jumping by 10^10 ms without limits changes nothing.",
          TB, "Coq proof (clock independence) + exact-trace correspondence + repeated runs"),
  "C17": ("Theorems C17_mirror (every 64-bit board, saturation included), C17_antisym and C17_value (<= 16 pieces a side), C17_guard_needed. Tie: "
          "engine vs model on corpus, walk positions and random positions with overflowing material, each as given / mirrored / side-swapped.",
